@@ -1,12 +1,13 @@
-(* C12 -- property theorems.  Statements + `exact` only; proofs live in Proofs/C12.v.
+(* C12 -- property theorems.  Statements + `exact` only; proofs live in Proofs/C12*.v.
    Tables tab_* (Gen/C12_Tab.v) are the graphs of the real partitura functions on the
-   finite domains named by the property, regenerated from the source on every run;
-   "In (x, y) tab_f" therefore reads "the implementation's f returns y on x". *)
-From PV Require Import Lib.Base Lib.Round Lib.Tab Model.C12 Gen.C12_Tab Proofs.C12.
+   finite domains named by the property (and the constant tables it lists), regenerated
+   from the source on every run; "In (x, y) tab_f" therefore reads "the implementation's
+   f returns y on x" (None = the call raised). *)
+From PV Require Import Lib.Base Lib.Round Lib.Tab Model.C12 Gen.C12_Tab Proofs.C12_model Proofs.C12.
 From Coq Require Import QArith Qabs.
 #[local] Open Scope Z_scope.
 
-(* O1 twelve-tone arithmetic, C4 = 60, each accidental one semitone, each octave twelve *)
+(* ---- O1 twelve-tone arithmetic, C4 = 60, each accidental one semitone, each octave twelve ---- *)
 Theorem ps_to_midi_C4 : ps_to_midi "C" 0 4 = Some 60.
 Proof. exact Proofs.C12.ps_to_midi_C4. Qed.
 Print Assumptions ps_to_midi_C4.
@@ -16,11 +17,27 @@ Theorem ps_to_midi_shift : forall s a o m da do,
 Proof. exact Proofs.C12.ps_to_midi_shift. Qed.
 Print Assumptions ps_to_midi_shift.
 
-(* every integer MIDI pitch (not only 0..127): spelling then pitch is the identity *)
+(* MIDI pitch -> spelling -> MIDI pitch is the identity for EVERY integer pitch and for every
+   pitch-class table the algorithm of midi_pitch_to_pitch_spelling may be given, provided each
+   entry (step, alter) of the table has base pitch class + alter = its pitch class *)
+Theorem midi_ps_roundtrip_any_table : forall tab, dummy_ok tab = true -> forall m : Z,
+  exists s a o, midi_to_ps_with tab m = Some (s, a, o) /\ In s steps7 /\ ps_to_midi s a o = Some m.
+Proof. exact midi_ps_roundtrip_any. Qed.
+Print Assumptions midi_ps_roundtrip_any_table.
+
+Example dummy_ok_satisfiable : dummy_ok sharps_table = true.
+Proof. exact sharps_table_ok. Qed.
+
+(* ... in particular for the table the code has now (DUMMY_PS_BASE_CLASS, reflected) *)
 Theorem midi_ps_roundtrip : forall m : Z,
-  let '(s, a, o) := midi_to_ps m in ps_to_midi s a o = Some m.
+  exists s a o, midi_to_ps_with tab_dummy_ps m = Some (s, a, o) /\ In s steps7 /\ ps_to_midi s a o = Some m.
 Proof. exact midi_ps_roundtrip_lemma. Qed.
 Print Assumptions midi_ps_roundtrip.
+
+(* the pitch class of a spelling is its MIDI pitch modulo twelve, whatever the octave *)
+Theorem step2pc_is_pitch_class : forall s a o m, ps_to_midi s a o = Some m -> step2pc s a = Some (m mod 12).
+Proof. exact step2pc_spec. Qed.
+Print Assumptions step2pc_is_pitch_class.
 
 (* the implementation equals the model on all steps x alterations -3..3 x octaves -1..9 *)
 Theorem impl_ps_to_midi : forall s a o,
@@ -29,32 +46,120 @@ Theorem impl_ps_to_midi : forall s a o,
 Proof. exact impl_ps_to_midi_lemma. Qed.
 Print Assumptions impl_ps_to_midi.
 
+Theorem impl_note_midi_pitch : forall s a o,
+  In s steps7 -> -3 <= a <= 3 -> -1 <= o <= 9 ->
+  In ((s, Some a, o), ps_to_midi s a o) tab_note_midi.
+Proof. exact impl_note_midi_lemma. Qed.
+Print Assumptions impl_note_midi_pitch.
+
+(* alter None counts as unaltered; lower-case steps, where accepted, follow the same arithmetic *)
+Theorem impl_alter_none_and_lower_case :
+  all_rows tab_ps_to_midi_none (fun k v => zopt_eqb v (ps_to_midi (fst k) 0 (snd k))) = true /\
+  all_rows tab_ps_to_midi_lower (fun k v => let '(s, a, o) := k in some_then_eqb v (ps_to_midi s a o)) = true /\
+  all_rows tab_note_midi (fun k v => let '(s, a, o) := k in zopt_eqb v (ps_to_midi s (alter_or_0 a) o)) = true /\
+  existsb (fun row => match fst row with (_, None, _) => true | _ => false end) tab_note_midi = true /\
+  all_rows tab_note_midi_lower (fun k v => let '(s, a, o) := k in some_then_eqb v (ps_to_midi s a o)) = true.
+Proof. exact (conj tab_ps_to_midi_none_all (conj tab_ps_to_midi_lower_ok tab_note_midi_all)). Qed.
+Print Assumptions impl_alter_none_and_lower_case.
+
+Theorem impl_step2pc : forall s a, In s steps7 -> -3 <= a <= 3 -> In ((s, a), step2pc s a) tab_step2pc.
+Proof. exact impl_step2pc_lemma. Qed.
+Print Assumptions impl_step2pc.
+
+(* midi_pitch_to_pitch_spelling on 0..127 returns a spelling that sounds the pitch (which spelling
+   is not prescribed), and it is the one the modelled algorithm computes from the code's own table *)
 Theorem impl_midi_to_ps : forall m, 0 <= m <= 127 ->
-  let '(s, a, o) := midi_to_ps m in In (m, Some (s, Some a, Some o)) tab_midi_to_ps.
+  exists s a o, In (m, Some (s, Some a, Some o)) tab_midi_to_ps /\ ps_to_midi s a o = Some m /\
+                midi_to_ps_with tab_dummy_ps m = Some (s, a, o).
 Proof. exact impl_midi_to_ps_lemma. Qed.
 Print Assumptions impl_midi_to_ps.
 
-(* note names: the implementation prints the model's name, and for octaves >= 0 (the
-   documented grammar has no sign) parses it back to the same spelling and MIDI pitch *)
+(* note names: printing then reading is the identity for EVERY octave >= 0 (the grammar has no sign),
+   so printed names of different spellings differ *)
+Theorem name_roundtrip : forall s a o, In s steps7 -> -3 <= a <= 3 -> 0 <= o ->
+  parse_name (note_name s a o) = Some (s, a, o) /\ name_documented (note_name s a o) = true.
+Proof. exact name_roundtrip_lemma. Qed.
+Print Assumptions name_roundtrip.
+
+Theorem note_name_injective : forall s a o s' a' o',
+  In s steps7 -> -3 <= a <= 3 -> 0 <= o -> In s' steps7 -> -3 <= a' <= 3 -> 0 <= o' ->
+  note_name s a o = note_name s' a' o' -> (s, a, o) = (s', a', o').
+Proof. exact note_name_injective_lemma. Qed.
+Print Assumptions note_name_injective.
+
+(* each further accidental sign adds its own semitone *)
+Theorem accidentals_additive : forall a b va vb, sign_value a = Some va -> sign_value b = Some vb ->
+  sign_value (a ++ b) = Some (va + vb).
+Proof. exact sign_value_app. Qed.
+Print Assumptions accidentals_additive.
+
+(* the implementation's printed name of every spelling of the domain is read back -- by the model's
+   reader and by the implementation's -- as that spelling and its MIDI pitch (octaves 0..9); the
+   accidental signs it prints are not prescribed *)
 Theorem impl_note_name : forall s a o,
   In s steps7 -> -3 <= a <= 3 -> -1 <= o <= 9 ->
-  In ((s, a, o), Some (note_name s a o)) tab_note_name /\
-  (0 <= o -> In (note_name s a o, Some (s, Some a, Some o), ps_to_midi s a o) tab_name_parse).
+  exists n, In ((s, a, o), Some n) tab_note_name /\
+  (0 <= o -> parse_name n = Some (s, a, o) /\ In (n, Some (s, Some a, Some o), ps_to_midi s a o) tab_name_parse).
 Proof. exact impl_note_name_lemma. Qed.
 Print Assumptions impl_note_name.
 
-Theorem impl_note_name_accidental_spellings :
-  all_rows tab_name_alt (fun k v => let '(s, a, o) := k in
-     ps_res_eqb (fst v) (s, a, o) && zopt_eqb (snd v) (ps_to_midi s a o)) = true
-  /\ List.length tab_name_alt = 336%nat.
-Proof. exact tab_name_alt_ok. Qed.
-Print Assumptions impl_note_name_accidental_spellings.
+(* strings of the grammar [A-G][xb#]*digits: documented accidental strings (with one- and two-digit
+   octaves) are accepted and read as the model reads them; other strings of signs are rejected or read
+   one semitone per sign; note_name_to_midi_pitch is the MIDI pitch of what was read *)
+Theorem impl_name_grammar :
+  (forall n v, In (n, v) tab_name_grammar -> gram_row_ok n v = true) /\
+  (forall s a o, In s steps7 -> In a doc_accs -> In o oct_strings ->
+     exists r m, In ((s ++ a ++ o)%string, (Some r, m)) tab_name_grammar).
+Proof. exact impl_name_grammar_lemma. Qed.
+Print Assumptions impl_name_grammar.
 
-(* O2 keys: bijection on 15 + 15 names; everything else rejected *)
+Theorem impl_ensure_format_and_alter_sign :
+  (all_rows tab_ensure_sign ensure_sign_ok = true /\
+   covers ss_eqb (list_prod (steps7 ++ ["c"; "d"; "e"; "f"; "g"; "a"; "b"]%string) ["n"; "#"; "x"; "b"; "bb"]%string)
+          tab_ensure_sign (fun _ _ => true) = true /\
+   all_rows tab_ensure_int (fun k r => let '(s, a, o) := k in ps_res_eqb r (upper_step s, a, o)) = true /\
+   Nat.leb 1 (List.length tab_ensure_int) = true) /\
+  (all_rows tab_note_alter_sign (fun al r =>
+     match r with
+     | Some sg => all_acc_chars sg && zopt_eqb (sign_value sg) (Some (alter_or_0 al))
+     | None => match al with Some a => (a <? -2) || (2 <? a) | None => false end
+     end) = true /\
+   covers zopt_eqb [None; Some (-2); Some (-1); Some 0; Some 1; Some 2] tab_note_alter_sign (fun _ _ => true) = true).
+Proof. exact (conj tab_ensure_ok tab_note_alter_sign_ok). Qed.
+Print Assumptions impl_ensure_format_and_alter_sign.
+
+(* the constant tables the property lists agree with the model and with each other *)
+Theorem constant_tables_agree :
+  all_rows tab_base_pc (fun k v => zopt_eqb (base_pc k) (Some v)) = true /\
+  covers String.eqb steps7 tab_base_pc (fun _ _ => true) = true /\
+  all_rows tab_midi_base_class (fun k v => zopt_eqb (base_pc k) (Some v)) = true /\
+  covers String.eqb lower7 tab_midi_base_class (fun _ _ => true) = true /\
+  forallb (fun s => match slookup s tab_steps_idx with
+                    | Some i => sopt_eqb (zlookup i tab_steps_letter) (Some s) | None => false end) steps7 = true /\
+  forallb (fun i => match zlookup i tab_steps_letter with
+                    | Some s => zopt_eqb (slookup s tab_steps_idx) (Some i) | None => false end) (zrange 0 7) = true /\
+  forallb (fun n => zopt_eqb (s <- zlookup (n - 1) tab_steps_letter ;; base_pc s)
+                             (interval_semitones n (if is_perfect n then "P" else "M")%string)) (zrange 1 7) = true /\
+  all_rows tab_alt_to_int (fun k v => zopt_eqb (sign_value k) (Some v)) = true /\
+  all_rows tab_int_to_alt (fun i s => zopt_eqb (slookup s tab_alt_to_int) (Some i)) = true /\
+  covers Z.eqb (zrange (-2) 5) tab_int_to_alt (fun _ _ => true) = true /\
+  all_rows tab_sign_to_alter (fun k v => match v with Some x => zopt_eqb (sign_value k) (Some x) | None => true end) = true /\
+  covers String.eqb (tl doc_accs) tab_sign_to_alter (fun _ v => match v with Some _ => true | None => false end) = true /\
+  forallb (fun n => forallb (fun q => zopt_eqb (slookup (q ++ digit n) tab_interval_to_semitones) (interval_semitones n q))
+                            ["dd"; "d"; "m"; "M"; "P"; "A"; "AA"]%string) (zrange 1 7) = true.
+Proof. exact tab_constants_ok. Qed.
+Print Assumptions constant_tables_agree.
+
+(* ---- O2 keys: bijection on 15 + 15 names; everything else rejected ---- *)
 Theorem key_roundtrip : forall f m, -7 <= f <= 7 ->
   exists n, key_name f m = Some n /\ key_parse n = Some (f, m).
 Proof. exact key_roundtrip_lemma. Qed.
 Print Assumptions key_roundtrip.
+
+(* the other direction, for every string: what key_parse reads is a key in -7..7 that prints as that string *)
+Theorem key_parse_roundtrip : forall n f m, key_parse n = Some (f, m) -> -7 <= f <= 7 /\ key_name f m = Some n.
+Proof. exact key_parse_sound. Qed.
+Print Assumptions key_parse_roundtrip.
 
 Theorem key_names_distinct : NoDup (major_keys ++ minor_keys).
 Proof. exact Proofs.C12.key_names_distinct. Qed.
@@ -64,18 +169,24 @@ Theorem key_name_rejects : forall f m, ~ (-7 <= f <= 7) -> key_name f m = None.
 Proof. exact Proofs.C12.key_name_rejects. Qed.
 Print Assumptions key_name_rejects.
 
-(* implementation = model for all fifths -12..12 x all nine mode spellings (six accepted, three unknown) *)
+(* implementation = model for all fifths -12..12 x all nine mode spellings (six accepted, three unknown),
+   for the function and for KeySignature.name *)
 Theorem impl_key_name : forall f mi, -12 <= f <= 12 -> 0 <= mi <= 8 ->
   In ((f, mi), key_name_sp f mi) tab_key_name.
 Proof. exact impl_key_name_lemma. Qed.
 Print Assumptions impl_key_name.
+
+Theorem impl_keysig_name : forall f mi, -12 <= f <= 12 -> 0 <= mi <= 8 ->
+  In ((f, mi), key_name_sp f mi) tab_keysig_name.
+Proof. exact impl_keysig_name_lemma. Qed.
+Print Assumptions impl_keysig_name.
 
 Theorem impl_key_parse : forall n, In n (major_keys ++ minor_keys) ->
   exists f m, key_parse n = Some (f, m) /\ In (n, Some (f, mode_string m)) tab_key_parse.
 Proof. exact impl_key_parse_lemma. Qed.
 Print Assumptions impl_key_parse.
 
-(* O3 interval sizes: all 7 numbers x 7 qualities x 2 directions; exactly 39 classes *)
+(* ---- O3 interval sizes: all 7 numbers x 7 qualities x 2 directions; exactly 39 classes ---- *)
 Theorem impl_interval : forall n q d, 1 <= n <= 7 -> In q quals ->
   In ((n, q, d), interval_semitones n q) tab_interval.
 Proof. exact impl_interval_lemma. Qed.
@@ -88,17 +199,40 @@ Theorem interval_classes : List.length tab_intervalclasses = 39%nat /\
 Proof. exact interval_classes_39. Qed.
 Print Assumptions interval_classes.
 
-(* O3 dotted units and tempo units *)
+(* ---- O3 dotted units, tempo units, durations, tuplets ---- *)
 Theorem dot_multipliers : list_eqb Qeq_bool tab_dot_mult [dot_mult 0; dot_mult 1; dot_mult 2; dot_mult 3] = true.
 Proof. exact tab_dot_mult_ok. Qed.
 Print Assumptions dot_multipliers.
 
+Theorem dot_multiplier_values : (dot_mult 0 == 1 /\ dot_mult 1 == 3 # 2 /\ dot_mult 2 == 7 # 4 /\ dot_mult 3 == 15 # 8)%Q.
+Proof. exact dot_mult_values. Qed.
+Print Assumptions dot_multiplier_values.
+
+Theorem dot_multiplier_step : forall k, 0 <= k -> (dot_mult (k + 1) == dot_mult k + 1 / inject_Z (2 ^ (k + 1)))%Q.
+Proof. exact dot_mult_step. Qed.
+Print Assumptions dot_multiplier_step.
+
+Theorem label_durations :
+  all_rows tab_label_durs (fun u v => match label_dur u with Some l => Qeq_bool v l | None => false end) = true
+  /\ List.length tab_label_durs = 14%nat.
+Proof. exact tab_label_durs_ok. Qed.
+Print Assumptions label_durations.
+
+(* to_quarter_tempo: 14 units x 0..3 dots x 5 tempo values *)
 Theorem tempo_units :
-  all_rows tab_tempo (fun k v => match v, label_dur (fst k) with
-                                 | Some x, Some l => Qeq_bool x (l * dot_mult (snd k))
-                                 | _, _ => false end) = true /\ List.length tab_tempo = 56%nat.
+  all_rows tab_tempo (fun k v => let '(u, dots, tp) := k in qopt_close v (quarter_tempo u dots tp)) = true
+  /\ List.length tab_tempo = 280%nat.
 Proof. exact tab_tempo_ok. Qed.
 Print Assumptions tempo_units.
+
+(* Tempo.microseconds_per_quarter is the integer nearest to 60e6 / (bpm in quarters): 14 units x 0..3 dots
+   (and no unit = quarter) x 15 bpm values *)
+Theorem tempo_microseconds_per_quarter :
+  all_rows tab_mpq (fun k v => let '(u, dots, bpm) := k in
+     match v, mpq_exact (unit_or_q u) dots bpm with Some x, Some e => mpq_nearest x e | _, _ => false end) = true
+  /\ List.length tab_mpq = 855%nat.
+Proof. exact tab_mpq_ok. Qed.
+Print Assumptions tempo_microseconds_per_quarter.
 
 Theorem symbolic_durations :
   all_rows tab_symdur (fun k v => let '(u, dots, an, nn, divs) := k in qopt_close v (sym_dur u dots an nn divs)) = true
@@ -106,7 +240,25 @@ Theorem symbolic_durations :
 Proof. exact tab_symdur_ok. Qed.
 Print Assumptions symbolic_durations.
 
-(* O4 seconds <-> ticks *)
+(* Tuplet.duration_multiplier: 6 ratios x (14 x 14 note types + no type) *)
+Theorem tuplet_multipliers :
+  all_rows tab_tuplet (fun k v => let '(an, nn, atype, ntype) := k in qopt_close v (tuplet_mult an nn atype ntype)) = true
+  /\ List.length tab_tuplet = 1182%nat.
+Proof. exact tab_tuplet_ok. Qed.
+Print Assumptions tuplet_multipliers.
+
+(* the tuplet multiplier is exactly the factor by which a tuplet scales a symbolic duration *)
+Theorem tuplet_scales_symbolic_duration : forall u dots an nn divs d1 d m, an <> 0 ->
+  sym_dur u dots 1 1 divs = Some d1 -> sym_dur u dots an nn divs = Some d -> tuplet_mult an nn u u = Some m ->
+  (d == d1 * m)%Q.
+Proof. exact tuplet_scales_sym_dur. Qed.
+Print Assumptions tuplet_scales_symbolic_duration.
+
+Example tuplet_hypotheses_satisfiable :
+  exists d1 d m, sym_dur "eighth" 1 1 1 480 = Some d1 /\ sym_dur "eighth" 1 3 2 480 = Some d /\ tuplet_mult 3 2 "eighth" "eighth" = Some m.
+Proof. do 3 eexists. repeat split. Qed.
+
+(* ---- O4 seconds <-> ticks ---- *)
 Theorem tick_roundtrip : forall ppq mpq k,
   0 < ppq -> 0 < mpq -> sec_to_tick ppq mpq (tick_to_sec ppq mpq k) = k.
 Proof. exact tick_roundtrip_lemma. Qed.
@@ -117,7 +269,25 @@ Theorem sec_to_tick_nearest : forall ppq mpq t,
 Proof. exact sec_to_tick_nearest_lemma. Qed.
 Print Assumptions sec_to_tick_nearest.
 
-(* O5 frequency <-> MIDI pitch, rounded float arithmetic, whole MIDI range, three tunings *)
+(* tempo and ticks are consistent: a quarter note at mpq microseconds per quarter is exactly ppq ticks *)
+Theorem quarter_note_is_ppq_ticks : forall ppq mpq, 0 < ppq -> 0 < mpq ->
+  sec_to_tick ppq mpq (inject_Z mpq / 1000000)%Q = ppq.
+Proof. exact quarter_is_ppq_ticks. Qed.
+Print Assumptions quarter_note_is_ppq_ticks.
+
+(* later times never get earlier ticks *)
+Theorem sec_to_tick_monotone : forall ppq mpq t1 t2, 0 < ppq -> 0 < mpq -> (t1 <= t2)%Q ->
+  sec_to_tick ppq mpq t1 <= sec_to_tick ppq mpq t2.
+Proof. exact Proofs.C12_model.sec_to_tick_monotone. Qed.
+Print Assumptions sec_to_tick_monotone.
+
+(* seconds -> ticks -> seconds moves a time by at most half a tick *)
+Theorem sec_tick_sec_within_half_tick : forall ppq mpq t, 0 < ppq -> 0 < mpq ->
+  (Qabs (tick_to_sec ppq mpq (sec_to_tick ppq mpq t) - t) <= (1 # 2) * (inject_Z mpq / inject_Z (1000000 * ppq)))%Q.
+Proof. exact sec_tick_sec_error. Qed.
+Print Assumptions sec_tick_sec_within_half_tick.
+
+(* ---- O5 frequency <-> MIDI pitch, rounded float arithmetic, whole MIDI range, three tunings ---- *)
 Theorem impl_freq_roundtrip : forall m a4, 0 <= m <= 127 -> In a4 [440; 415; 442] -> In ((m, a4), Some m) tab_freq.
 Proof. exact impl_freq_lemma. Qed.
 Print Assumptions impl_freq_roundtrip.
@@ -128,12 +298,15 @@ Theorem impl_freq_nearest :
 Proof. exact tab_freq_off_ok. Qed.
 Print Assumptions impl_freq_nearest.
 
-(* O6 mode and clef codes decode to what was encoded *)
+(* ---- O6 mode and clef codes decode to what was encoded (the code numbers are not prescribed) ---- *)
 Theorem mode_codes :
-  all_rows tab_mode_int (fun mi r => zopt_eqb r (option_map mode_int (mode_of_spelling mi))) = true /\
+  all_rows tab_mode_int mode_int_row_ok = true /\
+  negb (zopt_eqb (mode_code 0) (mode_code 1)) = true /\
   all_rows tab_int_mode (fun mi r => sopt_eqb r (option_map mode_string (mode_of_spelling mi))) = true /\
+  all_rows tab_mode_rt (fun mi r => sopt_eqb r (option_map mode_string (mode_of_spelling mi))) = true /\
   covers Z.eqb (zrange 0 9) tab_mode_int (fun _ _ => true) = true /\
-  covers Z.eqb (zrange 0 9) tab_int_mode (fun _ _ => true) = true.
+  covers Z.eqb (zrange 0 9) tab_int_mode (fun _ _ => true) = true /\
+  covers Z.eqb (zrange 0 9) tab_mode_rt (fun _ _ => true) = true.
 Proof. exact tab_mode_codes_ok. Qed.
 Print Assumptions mode_codes.
 
@@ -153,7 +326,7 @@ Theorem clef_codes :
 Proof. exact tab_clef_codes_ok. Qed.
 Print Assumptions clef_codes.
 
-(* O5 over the reals (depends on the standard library's real-number axioms) *)
+(* ---- O5 over the reals (depends on the standard library's real-number axioms) ---- *)
 From PV Require Import Proofs.C12_real.
 From Coq Require Import Reals.
 Theorem freq_midi_inverse : forall a4 m : R, (0 < a4)%R -> midi_of_freq a4 (freq_of_midi a4 m) = m.
